@@ -9,7 +9,8 @@ CONSTANTS
   Eager = FALSE
   CloseErr = FALSE
   Defect_LateCloseUnderLock = FALSE
+  Defect_NoJoin = FALSE
   Defect_AddDeadConn = TRUE
   Mut = "none"
-INVARIANTS TypeOK NoSelfDeadlock SizeBound OneFiller ClosedEmpty ReportedNotInPool NoStray NoLeakAfterClose
+INVARIANTS TypeOK NoSelfDeadlock FillJoin SizeBound OneFiller ClosedEmpty ReportedNotInPool NoStray NoLeakAfterClose
 CHECK_DEADLOCK FALSE
